@@ -142,3 +142,85 @@ func (s *PfcpServer) txKeySeq(counter uint32) uint32 {
 }
 
 func ZZ_C09_Loop() { zzC09(3 + zzTier()) }
+
+// Response and retransmission-timer expiry crossing each other. The timer of an outstanding request
+// really fires (zzFireTimer: its callback queues the timeout event, and Stop then reports false),
+// and a matching response arrives as well. The event loop's select may take the two in either order;
+// to make both orders reproducible natively the harness plays the select itself and runs the two
+// case bodies of PfcpServer.main in the order chosen by the solver (the bodies are: look the
+// transaction up by its id, then TxTransaction.recv + rspDispacher, or TxTransaction.handleTimeout).
+// Whatever the order, once the response has been handled the request is retired: no entry, no armed
+// timer, and nothing is sent for it any more.
+func zzC09Crossed() {
+	w := zzNewWorld(zzFAR, false)
+	s := w.s
+	maxr := nondetChoice("maxretrans", 4)
+	s.cfg.Pfcp.MaxRetrans = uint8(maxr)
+	n := s.NewNode(zzNodeA, zzAddrA, w.dp)
+	s.rnodes[zzNodeA] = n
+	ss := n.NewSess(0x70)
+	info := &URRInfo{}
+	info.VOLUM = true
+	ss.URRIDs[1] = info
+	s.txSeq = nondetU32("txseq")
+	s.ServeReport(&report.SessReport{SEID: ss.LocalID, Reports: []report.Report{report.USAReport{URRID: 1}}})
+	zzAssert("C09.crossed.request-sent", zzSentCount() == 1 && len(s.txTrans) == 1)
+	if zzSentCount() != 1 || len(s.txTrans) != 1 {
+		return
+	}
+	h := zzParseHdr(zzSentBytes(0))
+	var tx *TxTransaction
+	for _, t := range s.txTrans {
+		tx = t
+	}
+	// earlier expiries that were handled normally: k retransmissions
+	k := nondetChoice("earlier-expiries", 2)
+	for i := 0; i < k && i < maxr; i++ {
+		zzAssert("C09.crossed.timer-armed", zzFireTimer(tx.timer))
+		to := <-s.trToCh
+		if t, ok := s.txTrans[to.TrID]; ok {
+			t.handleTimeout()
+		}
+	}
+	sentBefore := zzSentCount()
+	// now the timer fires AND the response arrives
+	fired := zzFireTimer(tx.timer)
+	zzAssert("C09.crossed.timer-armed", fired)
+	rsp := message.NewSessionReportResponse(0, 0, ss.LocalID, h.seq, 0, ie.NewCause(ie.CauseRequestAccepted))
+	trID := fmt.Sprintf("%s-%d", zzAddrA, rsp.Sequence())
+	handleRsp := func() {
+		if t, ok := s.txTrans[trID]; ok {
+			req := t.recv(rsp)
+			_ = s.rspDispacher(rsp, zzAddrA, req)
+		}
+	}
+	handleTo := func() {
+		to := <-s.trToCh
+		if t, ok := s.txTrans[to.TrID]; ok {
+			t.handleTimeout()
+		}
+	}
+	sentAtRsp := 0
+	if nondetBool("response-first") {
+		handleRsp()
+		sentAtRsp = zzSentCount()
+		handleTo()
+		zzCover("C09.crossed.response-first")
+	} else {
+		handleTo()
+		handleRsp()
+		sentAtRsp = zzSentCount()
+		zzCover("C09.crossed.timeout-first")
+	}
+	zzAssert("C09.crossed.retired", len(s.txTrans) == 0)
+	zzAssert("C09.crossed.nothing-sent-after-the-response", zzSentCount() == sentAtRsp)
+	zzAssert("C09.crossed.at-most-one-more-copy", zzSentCount() <= sentBefore+1)
+	// a timer still armed for the retired request would fire into nothing - or, if the entry were
+	// still there, retransmit an answered request
+	for _, t := range s.txTrans {
+		zzAssert("C09.crossed.no-armed-timer-left", !zzFireTimer(t.timer))
+	}
+	zzCover("C09.crossed.done")
+}
+
+func ZZ_C09_Crossed() { zzC09Crossed() }
